@@ -336,6 +336,25 @@ func runBlocked(c *mon.Case, sp spec) {
 				return e
 			})
 		}
+		// and a second caller parked on each of the same contexts: a Recv that waits for the reply to
+		// the request whose Send is still waiting for a connection (no peer), or next to the first
+		// Recv (peer).  Close has to release every caller of a context, not just one.
+		if c.Rand.Intn(2) == 0 {
+			mon.Await(func() bool {
+				for _, k := range blocked {
+					if !k.Done() && !k.ParkedIn("") {
+						return false
+					}
+				}
+				return true
+			}, mon.AwaitOpts{Watchdog: 3 * time.Second})
+			start("Recv-2nd-caller", func() error { _, e := s.Recv(); return e })
+			for i, cx := range cxs {
+				cx := cx
+				start(fmt.Sprintf("ctx%d.Recv-2nd-caller", i), func() error { _, e := cx.Recv(); return e })
+			}
+			c.Count("contexts_with_two_parked_callers", 1+len(cxs))
+		}
 	case "surveyor":
 		start("Send+Recv", func() error {
 			if e := s.Send([]byte("s")); e != nil {
